@@ -821,8 +821,30 @@ def case_splinecv(run, rng, vd, client=None, index=None):
         if state is None or state["mode"] != "delayed" or len(state["tickets"]) != len(state["cands"]):
             run.count("splinecv_delayed_not_judged")
             return
+        # between creating the lazy scores_ and consuming them: re-configure the SplineCV object / overwrite the data in place.
+        # scores_ must stay the scores of the grid, scorer and data in force when fit() was called (select() copied the rows then).
+        lazy_scores = list(lazy_model.scores_)
+        how = ["none", "set_params", "attribute", "data_in_place"][int(rng.integers(0, 4))] if index is None else \
+            ["set_params", "data_in_place", "attribute", "none"][(index // 2) % 4]
+        if how == "data_in_place":
+            arrays = [a for a in ([data] + ([] if weights is None else [weights])) if isinstance(a, np.ndarray) and a.flags.writeable]
+            if not arrays:
+                how = "set_params"
+            for a in arrays:
+                a *= -3.0
+                a += 1.0
+        if how in ("set_params", "attribute"):
+            other_grid = [float(d) * 7.0 + 0.01 for d in plain_dampings if d is not None][::-1] + [0.123]
+            if how == "set_params":
+                lazy_model.set_params(dampings=other_grid, scoring=pick_scoring(rng, run))
+            else:
+                lazy_model.dampings = other_grid
+                lazy_model.mindists = [0.5 * ext]
+        run.count("class:lazy_consumed_after:splinecv:" + how)
+        if how != "none":
+            run.count("class:lazy_consumed_after:splinecv:any_change")
         for schedule in (["threads-4", "threads-16-random"] if run.tier == "quick" else ["synchronous", "threads-2", "threads-16-random", "threads-4-reversed"]):
-            order = list(range(len(lazy_model.scores_)))
+            order = list(range(len(lazy_scores)))
             if "random" in schedule:
                 order = [int(i) for i in rng.permutation(len(order))]
             elif "reversed" in schedule:
@@ -834,7 +856,7 @@ def case_splinecv(run, rng, vd, client=None, index=None):
             old = sys.getswitchinterval()
             sys.setswitchinterval(1e-5)
             try:
-                got = dask.compute(*[lazy_model.scores_[k] for k in order], **kwargs)
+                got = dask.compute(*[lazy_scores[k] for k in order], **kwargs)
             finally:
                 sys.setswitchinterval(old)
             values = np.empty(len(order))
@@ -982,3 +1004,95 @@ def case_splinecv_history(run, rng, vd, index=0):
                                     "selected_after_second_fit": [model.mindist_, model.damping_]})
     with M.GL:
         M.flush_local(run)
+
+
+def case_lazy_scan(run, rng, vd, index=0):
+    """
+    A parameter scan that reuses ONE estimator object: for every value, cross_val_score(..., delayed=True) is called and the estimator is
+    re-configured (set_params / attribute assignment) for the next value; finally the estimator is changed once more (another value, a fit
+    on the data, or the data / weights arrays overwritten in place) and only then are all lazy scores computed. Every lazy score must be
+    the score of a clone as configured when its cross_val_score call was made, on the rows as they were then (= the serial call made at
+    that time = the harness reference built from a clone taken before that call).
+    """
+    ds, coords, data, weights, info = make_dataset(rng, run, ncomp=1)
+    S.register(ds)
+    kind = ("spline", "trend", "knn", "chain")[index % 4]
+    if kind == "spline":
+        values = [float(10 ** v) for v in rng.permutation([-3.5, -2.0, -0.5, 0.5])]
+        build, param = (lambda v: vd.Spline(damping=v)), "damping"
+    elif kind == "trend":
+        values = [int(v) for v in rng.permutation([1, 2, 3, 4])]
+        build, param = (lambda v: vd.Trend(degree=v)), "degree"
+    elif kind == "knn":
+        values = [int(v) for v in rng.permutation([1, 2, 4, 7])]
+        build, param = (lambda v: vd.KNeighbors(k=v)), "k"
+    else:
+        values = [float(10 ** v) for v in rng.permutation([-3.0, -1.5, 0.0, 0.7])]
+        build, param = (lambda v: vd.Chain([("trend", vd.Trend(degree=1)), ("spline", vd.Spline(damping=v))])), "damping of the held Spline step"
+    run.count("class:lazy_scan:estimator:" + kind)
+    n_steps = 2 if run.tier == "quick" else 3
+    pending = []
+
+    def rebaseline():
+        for dt, _, _, _ in pending:  # the harness itself changed the estimator: that is the new state to be left untouched
+            dt.snap = R.snapshot(dt.estimator, probe=dt.probe)
+
+    def reconfigure(value):
+        how = "set_params" if rng.random() < 0.5 else "attribute"
+        if kind == "chain":  # Chain exposes no nested parameter names: the held step itself is re-configured
+            how = "held_step_" + how
+            step = est.named_steps["spline"]
+            if how.endswith("set_params"):
+                step.set_params(damping=value)
+            else:
+                step.damping = value
+        elif how == "set_params":
+            est.set_params(**{param: value})
+        else:
+            setattr(est, param, value)
+        run.count("class:lazy_scan:reconfigured_by:" + how)
+        rebaseline()
+
+    with warnings.catch_warnings():
+        warnings.simplefilter("ignore")
+        est = build(values[0])
+        factory, cv_label, _ = make_cv(rng, run, vd, ds, allow_default=False, max_splits=4)
+        scoring = pick_scoring(rng, run)
+        for step in range(n_steps):
+            if step > 0:
+                reconfigure(values[step])
+            serial = vd.cross_val_score(est, coords, data, weights=weights, cv=factory(), scoring=scoring)
+            st = last_ticket(serial)
+            lazy = vd.cross_val_score(est, coords, data, weights=weights, cv=factory(), scoring=scoring, delayed=True)
+            dt = last_ticket(lazy)
+            if st is None or st.serial_values is None or dt is None:
+                run.count("lazy_scan_step_not_judged")
+                continue
+            if dt.splits is None:
+                dt.splits = st.splits
+            pending.append((dt, lazy, st.serial_values, same_splits(dt.splits, st.splits)))
+        # one more change before anything is consumed
+        final = ("reconfigure", "fit_on_the_data", "data_in_place", "weights_in_place")[(index // 4) % 4]
+        if final == "weights_in_place" and not (isinstance(weights, np.ndarray) and weights.flags.writeable):
+            final = "data_in_place"
+        if final == "data_in_place" and not (isinstance(data, np.ndarray) and data.flags.writeable):
+            final = "reconfigure"
+        if final == "reconfigure":
+            reconfigure(values[n_steps])
+        elif final == "fit_on_the_data":
+            with S.mute():
+                est.fit(coords, data, weights)
+            rebaseline()
+        elif final == "data_in_place":
+            data *= -2.0
+            data += 3.0
+        else:
+            weights[...] = weights[..., ::-1].copy() * 5.0
+        run.count("class:lazy_consumed_after:cross_val_score:" + final)
+    for dt, lazy, vals, comparable in pending:
+        for schedule in ("synchronous", "threads-4-random"):
+            compute_under(run, dt, lazy, schedule, rng, vals if comparable else None)
+            with M.GL:
+                run.evaluated("lazy_score_is_of_call_time")
+    run.sample("lazy_scan", {"dataset": info, "estimator": kind, "parameter": param, "values": values[: n_steps + 1], "cv": cv_label,
+                             "changed_before_compute": final, "serial_scores_at_call_time": [p[2] for p in pending]})
